@@ -106,7 +106,8 @@ Print Assumptions bus_send_never_blocks.
 
 (* ---- per-peer FIFO.  One step, any pipe p: queue before ++ accepted for p =
    handed to p's transport ++ queue after ++ cut off the tail (pipe close, queue
-   shrink).  Any well-formed history: transmissions on p followed by p's queue
+   shrink); only a send step accepts anything (taken), so BUS never forwards what
+   it received.  Any well-formed history: transmissions on p followed by p's queue
    are a subsequence of (queue before ++ everything accepted for p, in order) --
    no reordering, no duplication -- and exactly equal when nothing was cut ---- *)
 Theorem bus_per_peer_fifo :
@@ -223,6 +224,21 @@ Theorem bus_nonblock_send_refuted :
   bs_lost (fst (bus_step false bus_nb_witness_state (PSend None 5%N true bus_nb_witness_msg))) = [bus_nb_witness_msg].
 Proof. exact bus_nb_send_pinned_refuted. Qed.
 Print Assumptions bus_nonblock_send_refuted.
+
+(* ---- poll descriptors, on every state satisfying the invariant (hence every
+   reachable one): the receive descriptor is raised exactly when a non-blocking
+   receive succeeds and lowered exactly when it says EAGAIN (no missed wake-up, no
+   busy loop); the send descriptor is always raised, and -- without the
+   nni_aio_start call -- a non-blocking send always succeeds (the pinned form:
+   bus_nonblock_send_refuted) ---- *)
+Theorem bus_poll_mirror : forall fixed s c a,
+  BInv s ->
+  (poll_r (bus_poll s) = Some true <-> completions (snd (bus_step fixed s (PRecv c a true))) = [(a, E_OK)]) /\
+  (poll_r (bus_poll s) = Some false <-> completions (snd (bus_step fixed s (PRecv c a true))) = [(a, E_AGAIN)]) /\
+  poll_w (bus_poll s) = Some true /\
+  (fixed = true -> forall m, completions (snd (bus_step fixed s (PSend c a true m))) = [(a, E_OK)]).
+Proof. exact bus_poll_mirror_law. Qed.
+Print Assumptions bus_poll_mirror.
 
 (* ---- the literals of the model are those of the current source ---- *)
 Theorem bus_consts_match :
